@@ -253,7 +253,25 @@ func runC12(c *Ctx, w *World, r *Report) {
 			bad = "no bit test on the input"
 		} else {
 			iv, ok := fa.InductionOf(rd.Pos, rd.Ins.Block())
-			if !ok || !iv.FirstConst || iv.First != 0 || iv.Step != 1 {
+			if rd.SplitOff != nil {
+				// word-wise form: base = 0, 64, ... < 64*len(words) exactly, and every offset 0..63 of each word
+				lim := linConst(0).addScaled(linAtom("call:builtin len(p0)"), 64)
+				var ub *ssa.BasicBlock
+				if ui, isI := rd.Use.(ssa.Instruction); isI {
+					ub = ui.Block()
+				}
+				ivJ, okJ := fa.InductionOf(rd.SplitOff, ub)
+				switch {
+				case !ok || !iv.FirstConst || iv.First != 0 || iv.Step != 64 || !iv.HasN || !iv.N.Eq(lim):
+					bad = "the word-wise scan does not visit the aligned positions 0, 64, ... below 64*len(words) exactly"
+				case fa.earlyExit(iv) != "":
+					bad = "the word-wise scan can be left early: " + fa.earlyExit(iv)
+				case !okJ || !ivJ.FirstConst || ivJ.First != 0 || ivJ.Step != 1 || !ivJ.HasN || !ivJ.N.Eq(linConst(64)):
+					bad = "the bits of a word are not tested for every offset 0..63"
+				case fa.earlyExit(ivJ) != "":
+					bad = "the scan of a word's bits can be left early: " + fa.earlyExit(ivJ)
+				}
+			} else if !ok || !iv.FirstConst || iv.First != 0 || iv.Step != 1 {
 				bad = "tested position does not run 0,1,2,..."
 			} else {
 				lim := linConst(0).addScaled(linAtom("call:builtin len(p0)"), 64)
@@ -472,6 +490,8 @@ func runC12(c *Ctx, w *World, r *Report) {
 			// bit writes
 			nW := 0
 			var endPhi ssa.Value
+			var endL Lin
+			haveEndL := false
 			for _, br := range refs[n] {
 				if !br.Write || br.Role != ".Words" {
 					continue
@@ -522,6 +542,9 @@ func runC12(c *Ctx, w *World, r *Report) {
 								endPhi = fa.AtomValue(atom)
 							}
 						}
+					} else if bd.HasHi && bd.Hi <= 0 && len(E.T) > 1 {
+						// end written as a sum (Offset + span, span = size or last+1): its alternatives are examined below
+						okGrow, haveEndL, endL = true, true, E
 					}
 				}
 				if !okGrow {
@@ -565,9 +588,58 @@ func runC12(c *Ctx, w *World, r *Report) {
 				}
 			})
 			// end candidates
+			type endAlt struct {
+				L   Lin
+				blk *ssa.BasicBlock
+			}
+			var alts []endAlt
 			if endPhi != nil {
 				for _, s := range resolvePhi(endPhi) {
-					L := fa.Lin(s).Sub(off)
+					var blk *ssa.BasicBlock
+					if ins, ok := stripConv(s).(ssa.Instruction); ok {
+						blk = ins.Block()
+					}
+					alts = append(alts, endAlt{fa.Lin(s), blk})
+				}
+			} else if haveEndL {
+				alts = []endAlt{{endL, nil}}
+				for round := 0; round < 3; round++ {
+					var next []endAlt
+					changed := false
+					for _, al := range alts {
+						expanded := false
+						for atom, cf := range al.L.T {
+							p, ok := fa.AtomValue(atom).(*ssa.Phi)
+							if !ok || isLoopHeaderPhi(p) {
+								continue
+							}
+							rest := al.L.clone()
+							delete(rest.T, atom)
+							for i, e := range p.Edges {
+								blk := p.Block().Preds[i]
+								if ins, ok := stripConv(e).(ssa.Instruction); ok {
+									if _, isPhi := ins.(*ssa.Phi); !isPhi {
+										blk = ins.Block()
+									}
+								}
+								next = append(next, endAlt{rest.addScaled(fa.Lin(e), cf), blk})
+							}
+							expanded, changed = true, true
+							break
+						}
+						if !expanded {
+							next = append(next, al)
+						}
+					}
+					alts = next
+					if !changed || len(alts) > 16 {
+						break
+					}
+				}
+			}
+			{
+				for _, al := range alts {
+					L := al.L.Sub(off)
 					if L.Eq(size) {
 						continue
 					}
@@ -578,8 +650,8 @@ func runC12(c *Ctx, w *World, r *Report) {
 							if ok && coef == 1 && paramIndex(cont) == 1 && fa.Lin(idx).Eq(linAtom("call:builtin len(p1)").Add(linConst(-1))) {
 								okLast = true
 								// chosen when last >= size
-								if ins, ok := stripConv(s).(ssa.Instruction); ok {
-									bd := fa.BoundsAt(ins.Block(), linAtom(atom).Sub(size))
+								if al.blk != nil {
+									bd := fa.BoundsAt(al.blk, linAtom(atom).Sub(size))
 									if !(bd.HasLo && bd.Lo == 0) {
 										bad = "end = Offset+last+1 is chosen on last - size in " + bd.String() + ", must be exactly last >= size"
 									}
